@@ -469,6 +469,14 @@ func (g *G) genSwitch(f *FlowSpec, nd *nodeDraft, loc J, subflow bool) {
 			}
 			ts := testPool[t.Weighted("test", wts...)]
 			args := ts.args(g)
+			// arguments as people type them into the editor: with a stray blank before or after
+			if t.Chance("padded_argument", 1, 8) {
+				for ai, a := range args {
+					if !strings.Contains(a, "@") && a != "" {
+						args[ai] = []string{" " + a, a + " ", "  " + a + "\t"}[t.Pick("padkind", 3)]
+					}
+				}
+			}
 			cu := g.uuid(kCase)
 			c := J{"uuid": cu, "type": ts.name, "category_uuid": cats[t.Pick("casecat", len(cats))]["uuid"]}
 			if len(args) > 0 {
@@ -477,6 +485,9 @@ func (g *G) genSwitch(f *FlowSpec, nd *nodeDraft, loc J, subflow bool) {
 					g.localize(f, loc, cu, "arguments", args, func(lang string, i int) string {
 						if i < len(args) && (strings.HasPrefix(args[i], "@") || isNumeric(args[i])) {
 							return args[i]
+						}
+						if t.Chance("padded_translation", 1, 8) {
+							return " " + caseWords[(i+len(lang))%len(caseWords)] + " "
 						}
 						return caseWords[(i+len(lang))%len(caseWords)]
 					})
